@@ -19,6 +19,23 @@ CHECKS = {
             'Trusts CPython Fractions and the reading of "exact for polynomial dependence" as Lagrange extrapolation to x=0; grid sizes are '
             'taken from {40..100}; quick tier thins k=6 orderings to 122/720 (reported as a cap), thorough enumerates all.',
             'DESIGN.md §3 C07'),
+    'C08': ('model_checking',
+            'exhaustive enumeration of all (n,m,h,j) weights and operator extraction on unit spectra / singleton masks + explicit-state BFS over project/fold/unfold, against integer-binomial reference',
+            'All hypergeometric weights for n<=40 (and an m lattice up to n=200) are compared with exact integer binomials, in two query '
+            'orders and after cache clears; Spectrum.project is extracted as a linear operator on every unit spectrum and every singleton '
+            'mask for shapes up to 4-D and every target vector; a BFS over project/fold/unfold merges states by exact reference value and '
+            'compares the implementation along every path into a merged state (two-stage = one-stage, axis order, folded projection).',
+            'Linearity / OR-homomorphy are re-checked on pairs; 41<=n<=200 only on the m lattice {1,2,n/2,n-1,n}; 4-D shapes limited to '
+            '(2,3,2,3),(3,2,5,2); relative tolerance 1e-12 (n<=40) / 1e-10 per weight.',
+            'DESIGN.md §3 C08'),
+    'C09': ('model_checking',
+            'operator extraction on every unit array / singleton and pair mask for all shapes {1,2,3}^d (d<=5) + BFS over fold/unfold/mirror + full operator x operand x folding product, against an explicit re-indexing reference',
+            'fold, unfold and misidentification are decided on a complete basis (unit data, singleton masks, mask pairs) for every shape of '
+            'the bounded family, including odd/even totals; every arithmetic operator (binary, reflected, in-place) is run against every '
+            'operand kind and folding combination; fold.unfold.fold, mirror invariance and likelihood auto-folding are checked on every member.',
+            "Follows dadi's convention that corners are always masked (fold/unfold re-mask them); quick tier restricts 4-D/5-D shapes to "
+            'non-decreasing size tuples; mirrored folded spectra are followed for data only.',
+            'DESIGN.md §3 C09'),
 }
 
 NOT_YET = {}
